@@ -788,12 +788,18 @@ func lineBoxLayout(context *layoutContext, box_ Box, index int, child_ *bo.LineB
 					// we can't (and would loop forever if we tried), so don't
 					// even try.
 					if len(newChildren) != 0 || !pageIsEmpty {
-						if footnote.Box().Style.GetFootnotePolicy() == "line" {
+						policy := footnote.Box().Style.GetFootnotePolicy()
+						if policy == "block" && pageIsEmpty {
+							// the block is the first content of the page: pushing it as a whole to the
+							// next page would abort up to the root box, on every page; break the line instead
+							policy = "line"
+						}
+						if policy == "line" {
 							abort, stop, resumeAt = breakLine(
 								context, box, line_, &newChildren, linesIterator, pageIsEmpty,
 								index, skipStack, resumeAt, absoluteBoxes, fixedBoxes)
 							breakLinebox = true
-						} else if footnote.Box().Style.GetFootnotePolicy() == "block" {
+						} else if policy == "block" {
 							abort, breakLinebox = true, true
 						}
 						break
